@@ -1581,12 +1581,14 @@ Pointset_Powerset<PSET>::ascii_load(std::istream& s) {
 
   Pointset_Powerset new_x(x.space_dim, EMPTY);
   while (sz-- > 0) {
-    PSET ph;
-    if (!ph.ascii_load(s)) {
+    // Load each disjunct in place: going through add_disjunct() would
+    // observe (and copy) it, thereby changing its internal state.
+    new_x.sequence.push_back(Determinate<PSET>(PSET()));
+    if (!new_x.sequence.back().pointset().ascii_load(s)) {
       return false;
     }
-    new_x.add_disjunct(ph);
   }
+  new_x.reduced = false;
   swap(x, new_x);
 
   // Check invariants.
